@@ -50,6 +50,7 @@ func genTPlan(rt *rapid.T, pairs [][2]int, maxBatches int, withFailing bool) tPl
 		p.Batches = append(p.Batches, tb)
 	}
 	p.Tape = rapid.SliceOfN(rapid.IntRange(0, 1000), 0, 80).Draw(rt, "tape")
+	p.LagPropose = rapid.IntRange(0, 2).Draw(rt, "lagPropose") == 0
 	return p
 }
 
@@ -139,7 +140,7 @@ func TestC07(t *testing.T) {
 	defer finish(t, st)
 	t.Run("orders", func(t *testing.T) {
 		mk := func(script []string, lag []int) tPlan {
-			p := tPlan{N: 3, T: 2, Script: script, Lagging: lag}
+			p := tPlan{N: 3, T: 2, Script: script, Lagging: lag, LagPropose: len(lag) == 3}
 			for b := 0; b < 2; b++ {
 				tb := tBatch{Proposer: b, Tasks: []sTask{{ID: fmt.Sprintf("b%d-m0", b), File: "f", Payload: []byte(fmt.Sprintf("order payload %d", b))}}}
 				answers := map[int]bool{}
@@ -178,7 +179,7 @@ func TestC07(t *testing.T) {
 			if oi%stride != 0 {
 				continue
 			}
-			for _, lag := range [][]int{nil, {2}} {
+			for _, lag := range [][]int{nil, {2}, {0, 1, 2}} {
 				job++
 				if job%sn != si {
 					continue
